@@ -312,7 +312,7 @@ int main(int argc, char **argv) {
 			try {
         DelimiterList::forward_iterator delimit(delimiters);
         for (size_t i = 0; i < delimiters.size(); ++i, ++delimit) {
-					util::StringPiece line(child_out.ReadLine());
+					util::StringPiece line(child_out.ReadLine('\n', false));
 					sentence.append(line.data(), line.length());
           util::StringPiece delimiter(*delimit);
 					sentence.append(delimiter.data(), delimiter.size());
